@@ -618,6 +618,11 @@ def agree(ref, lib, path='$'):
             if r:
                 return r
         return None
+    if type(ref) is decimal.Decimal and type(lib) is decimal.Decimal and \
+            ref.is_finite() and lib.is_finite() and ref == lib:
+        # "equal to the input": 1E+2 and 100 (or 1.10 and 1.1) are the same number; the
+        # statement does not promise the representation (digits / exponent split)
+        return None
     if canon.canon(ref) != canon.canon(lib):
         kind = type(ref).__name__
         if isinstance(ref, (int, decimal.Decimal)) and \
